@@ -46,7 +46,7 @@ CHECKS = {
         ref="3.1, 4 C06"),
     "C07": dict(
         cat="other",
-        technique="def-use origin tracing of the context operand of every wrapped return (through closure captures), dominance rule for the consuming-call guard, orphan-storage rule on compiler-instantiated RetTmp slots (needs_drop from rustc)",
+        technique="def-use origin tracing of the context operand of every wrapped return (through closure captures), dominance rule for the consuming-call guard, orphan-storage rule on compiler-instantiated RetTmp slots (needs_drop from rustc), field-declaration-order rule (instance destroyed before context) on every container, reference-conservation rules of the CArc handle",
         text="each derived object owns one context field (the language drops it once), so the property reduces to: where does that field's value come from "
              "(fresh clone of the own container's context / moved context of the consumed container), is a clone held across consuming calls, and is any context "
              "clone parked in storage nobody releases. The last rule fails for the four wrap_with_*_{ref,mut} kinds: recorded known findings.",
@@ -78,10 +78,11 @@ CHECKS = {
         ref="4 C04"),
     "C16": dict(
         cat="proof",
-        technique="rustc layout_of / discriminant facts of monomorphic probes compared with the published table, the checked-in C header and cglue-bindgen's hard-coded struct patterns (string constants from MIR)",
+        technique="rustc layout_of / discriminant facts of monomorphic probes compared with the published table, the checked-in C header and cglue-bindgen's hard-coded struct patterns (string constants from MIR); path-sensitive case summaries of the published protocols (iterator next: 0 iff an item was written; arc clone through the stored function; positional parameters of a vector's stored functions)",
         text="finite table: every runtime wrapper type x (repr, field order, offsets, C kind of each field, fn-pointer arity/ABI, enum tags) decided from "
-             "compiler facts against three published oracles. Decides layout; that driving the fields has the same effect as the Rust method follows "
-             "from the ownership rules of C05/C06/C10/C11, not from this check.",
+             "compiler facts against three published oracles, plus the protocol clauses the statement names (next returns 0 for an item, clone/release through "
+             "the stored functions). That driving the fields has the same effect as the Rust method in general follows from the ownership rules of "
+             "C05/C06/C10/C11, not from this check.",
         note="trusts rustc layout computation and a small C struct parser; header cross-check covers the types the example header mentions",
         ref="4 C16"),
     "C10": dict(
@@ -112,7 +113,7 @@ CHECKS = {
         ref="4 C12"),
     "C13": dict(
         cat="other",
-        technique="path-sensitive case summaries of the int-result helpers and of every IntError::into_int_err (per input case: effects in order and returned term), NonZeroI32 type contract, out-parameter wiring rules on every generated int-result method",
+        technique="path-sensitive case summaries of the int-result helpers and of every IntError::into_int_err (per input case: effects in order and returned term), NonZeroI32 type contract, out-parameter wiring rules on every generated int-result method, transport rule (a method is integer-coded exactly when marked) on an enumerated trait grammar",
         text="which arm writes/reads the slot and which constant it returns is visible in the CFG of the four helper functions; shipped error types are "
              "shown never to encode to 0 by a small non-zero dataflow; the generated plumbing is checked per method on the corpus and repository traits.",
         note="trusts NonZeroI32/MaybeUninit semantics; user-defined IntError impls outside the repository are out of scope",
